@@ -2,3 +2,6 @@ local unused_a1 = 1
 print(undef_a1)
 local ta = { m = 1, m = 2 }
 print(ta)
+---@class
+local an_a1 = 1
+print(an_a1)
